@@ -460,6 +460,11 @@ class BaseEMSurvey(ObjectBase, ABC):  # pylint: disable=too-many-public-methods
                 dependent._metadata = values
                 self.workspace.update_attribute(dependent, "metadata")
 
+                # the partner resolves its own links again from the record it now shares
+                for cache in ("_receivers", "_transmitters", "_base_stations"):
+                    if getattr(dependent, cache, None) not in (None, self, dependent):
+                        setattr(dependent, cache, None)
+
     @property
     def receivers(self) -> BaseEMSurvey | None:
         """
